@@ -795,6 +795,15 @@ func rsStatusOrder(r *sim.Record, v *ersView) []V {
 		return nil
 	}
 	s := post.Status
+	// desired is "the number of nodes that should be running the daemon pod" (CRD documentation of the field):
+	// for the active set the targeted nodes, whether or not their pod is healthy, stuck or missing
+	if v.role == oracle.RoleActive && v.full && !v.faulted && r.Err == nil {
+		if _, ok := oracle.Resolve(v.eds.Spec.Strategy.RollingUpdate.MaxUnavailable, 1); ok {
+			if want := len(v.targeted(r.Pre)); int(s.Desired) != want {
+				return []V{{"C14", "rs-status-order", "C14/rs-desired/differs-from-targeted-nodes", fmt.Sprintf("active replica set %s reports desired=%d but %d nodes are targeted (eligible for its template, canary nodes excluded); ignoredUnresponsiveNodes=%d", post.Name, s.Desired, want, s.IgnoredUnresponsiveNodes)}}
+			}
+		}
+	}
 	if !(0 <= s.Available && s.Available <= s.Ready && s.Ready <= s.Current && s.Current <= s.Desired) {
 		return []V{{"C14", "rs-status-order", "C14/rs-status-order/role=" + string(v.role), fmt.Sprintf("replica set %s (%s) reports desired=%d current=%d ready=%d available=%d, violating 0<=available<=ready<=current<=desired", post.Name, v.role, s.Desired, s.Current, s.Ready, s.Available)}}
 	}
